@@ -6,6 +6,21 @@ S=$(mktemp -d /tmp/ra_repo.XXXXXX)
 rsync -a --exclude _build --exclude .git /repo/ $S/
 ( cd $S && patch -p1 -s < "$P" ) || { echo "PATCH FAILED"; rm -rf $S; exit 3; }
 mkdir -p $S/.ev
+# SMART=1: run only the checks whose units parse a file the patch touches (tools/filemap.py builds the map after a thorough run of all
+# checks); a check that reads none of the touched files cannot change its verdict
+ALL="${CHECKS:-C01 C02 C03 C05 C06 C07 C08 C09 C10 C11 C12 C13 C14 C15 C16 C17 C18 C19 C20}"
+if [ -n "$SMART" ] && [ -f /verif/.work/filemap.json ]; then
+  ALL=$(python3 - "$P" $ALL <<'PY'
+import json, re, sys
+patch, checks = sys.argv[1], sys.argv[2:]
+touched = set(re.findall(r'^\+\+\+ b/(\S+)', open(patch).read(), flags=re.M)) | set(re.findall(r'^--- a/(\S+)', open(patch).read(), flags=re.M))
+fm = json.load(open('/verif/.work/filemap.json'))
+print(' '.join(c for c in checks if c not in fm or touched & set(fm[c])))
+PY
+)
+  echo "-- smart: $ALL"
+fi
+CHECKS="$ALL"
 for C in ${CHECKS:-C01 C02 C03 C05 C06 C07 C08 C09 C10 C11 C12 C13 C14 C15 C16 C17 C18 C19 C20}; do
   ( AMGCL_SA_REPO=$S AMGCL_SA_WORK=$S/.work AMGCL_SA_EVIDENCE=$S/.ev python3 /verif/check.py $C --tier $TIER > $S/.ev/$C.log 2>&1; echo $? > $S/.ev/$C.rc ) &
 done
